@@ -3,6 +3,8 @@
  *   rt      single-stream round trips: sub-sample delay estimate vs OPUS_GET_LOOKAHEAD; SNR and per-band energy error against the
  *           frozen reference build run on the identical input and settings (relative bound, committed margins); stereo channel identity
  *   ms      multistream (surround family 1/255) round trips: every input channel comes back in its own output channel at its level
+ *   switch  streams whose settings change while they run, application changed before the first frame: lookahead, segmental
+ *           (2.5 ms) level monitor relative to the input and the frozen build
  * All three sample formats are used for input and output (chosen per case).
  */
 #include "vcodec.h"
@@ -121,7 +123,76 @@ out:
   free(in); free(out); free(pk); free(s16); free(o16); free(s24); free(o24); if(me) opus_multistream_encoder_destroy(me); if(md) opus_multistream_decoder_destroy(md); if(pe) opus_projection_encoder_destroy(pe); if(pd) opus_projection_decoder_destroy(pd);
 }
 
+
+/* ---------------------------------------------------------------- switch
+ * Streams whose settings change while they run (bitrate jumps that flip the channel / mode / bandwidth decisions, forced channels,
+ * bandwidth caps, forced modes, complexity), the application possibly changed by ctl before the first frame.  The same schedule runs on
+ * the tree build and on the frozen build.  Oracles: (a) the lookahead reported after the last OPUS_SET_APPLICATION is the documented one
+ * for that application and equals the frozen build's; (b) segmental level monitor: for every 2.5 ms block and output channel whose
+ * input is audible, the frozen build reproduces within C04_SEG_REF_DB and the tree build made the same coding decisions (identical TOC
+ * sequence), the tree's block energy must be within C04_SEG_DB of the frozen build's and of the input's -- a drop-out, a burst or a
+ * gain error that lasts a few frames after a transition shows here and is invisible in whole-stream averages. */
+#ifndef C04_SEG_DB
+#define C04_SEG_DB 8.0   /* largest value seen on the pinned tree: 4.7 dB over 5.8e6 blocks */
+#define C04_SEG_REF_DB 3.0
+#define C04_SEG_GROSS_DB 15.0      /* (unused: in frames below the rates that follow the block energies of two correct builds differ arbitrarily: a 3-byte MDCT frame is mostly noise filling; such blocks are skipped) */
+#define C04_SEG_RATE_MDCT 48000.0   /* bits per second and channel from which 2.5 ms block energies are expected to be preserved */
+#define C04_SEG_RATE_HYBRID 24000.0
+#define C04_SEG_RATE_SILK 14000.0
+#endif
+typedef struct { int at, what, val; } swev;   /* what: 0 bitrate 1 force_channels 2 bandwidth 3 max_bandwidth 4 force_mode 5 complexity 6 vbr */
+typedef struct { int Fs,ch,app0,app1,fidx,bitrate,vbr,cx,nsw; swev sw[12]; } swcfg;
+#define DEFINE_SWRUN(NAME,P) \
+static int NAME(const swcfg *c,const float *in,long n,float *out,unsigned char *tocs,int *lens,int *la_created,int *la_after){ int err; OpusEncoder *e=P##opus_encoder_create(c->Fs,c->ch,c->app0,&err); OpusDecoder *d=P##opus_decoder_create(c->Fs,c->ch,&err); if(!e||!d) return -1; opus_int32 la=0; P##opus_encoder_ctl(e,OPUS_GET_LOOKAHEAD(&la)); *la_created=la; \
+  if(c->app1!=c->app0){ int rc=P##opus_encoder_ctl(e,OPUS_SET_APPLICATION(c->app1)); if(rc!=OPUS_OK) return -4; } P##opus_encoder_ctl(e,OPUS_SET_BITRATE(c->bitrate)); P##opus_encoder_ctl(e,OPUS_SET_VBR(c->vbr)); P##opus_encoder_ctl(e,OPUS_SET_COMPLEXITY(c->cx)); P##opus_encoder_ctl(e,OPUS_GET_LOOKAHEAD(&la)); *la_after=la; \
+  int fs=vk_frame_samples(c->Fs,c->fidx); unsigned char pk[4000]; int k=0; \
+  for(long pos=0;pos+fs<=n;pos+=fs,k++){ for(int j=0;j<c->nsw;j++) if(c->sw[j].at==k){ int v=c->sw[j].val; switch(c->sw[j].what){ case 0: P##opus_encoder_ctl(e,OPUS_SET_BITRATE(v)); break; case 1: P##opus_encoder_ctl(e,OPUS_SET_FORCE_CHANNELS(v)); break; case 2: P##opus_encoder_ctl(e,OPUS_SET_BANDWIDTH(v)); break; case 3: P##opus_encoder_ctl(e,OPUS_SET_MAX_BANDWIDTH(v)); break; case 4: P##opus_encoder_ctl(e,VK_SET_FORCE_MODE_REQUEST,v); break; case 5: P##opus_encoder_ctl(e,OPUS_SET_COMPLEXITY(v)); break; default: P##opus_encoder_ctl(e,OPUS_SET_VBR(v)); } } \
+    int len=P##opus_encode_float(e,in+pos*c->ch,fs,pk,4000); if(len<=0){ la=-2; break; } tocs[k]=pk[0]; lens[k]=len; int rc=P##opus_decode_float(d,pk,len,out+pos*c->ch,fs,0); if(rc!=fs){ la=-3; break; } } \
+  P##opus_encoder_destroy(e); P##opus_decoder_destroy(d); return la; }
+DEFINE_SWRUN(swrun_tree,)
+#ifdef FIXED_POINT
+DEFINE_SWRUN(swrun_ref,rfx_)
+#else
+DEFINE_SWRUN(swrun_ref,ref_)
+#endif
+static void mode_switch(void){
+  vc_rng r; vc_case_rng(&r,6); swcfg c; memset(&c,0,sizeof c); c.Fs=vc_chance(&r,1,2)?48000:VC_PICK(&r,vk_rates); c.ch=vc_chance(&r,2,3)?2:1; c.app0=VC_PICK(&r,vk_apps); c.app1=vc_chance(&r,1,3)?VC_PICK(&r,vk_apps):c.app0; c.fidx=vc_range(&r,0,5); if(c.app1!=OPUS_APPLICATION_RESTRICTED_LOWDELAY&&c.fidx<2&&vc_chance(&r,2,3)) c.fidx=vc_range(&r,2,5);
+  static const int rates[]={10000,12000,16000,24000,32000,48000,64000,96000,128000}; c.bitrate=VC_PICK(&r,rates)*(vc_chance(&r,1,2)?c.ch:1); c.vbr=vc_below(&r,2); c.cx=VC_PICK(&r,((const int[]){0,3,5,10}));
+  int fs=vk_frame_samples(c.Fs,c.fidx); double secs=2.4+vc_unit(&r); long n=(long)(secs*c.Fs)/fs*fs; int nfr=(int)(n/fs); c.nsw=vc_range(&r,1,6);
+  for(int j=0;j<c.nsw;j++){ swev *w=&c.sw[j]; w->at=vc_range(&r,nfr/6,nfr-nfr/6); int q=(int)vc_below(&r,10); if(q<4){ w->what=0; w->val=VC_PICK(&r,rates)*(vc_chance(&r,1,2)?c.ch:1); } else if(q<6){ w->what=1; w->val=vc_chance(&r,1,3)?OPUS_AUTO:1+(int)vc_below(&r,c.ch); } else if(q==6){ w->what=2; w->val=vc_chance(&r,1,3)?OPUS_AUTO:OPUS_BANDWIDTH_NARROWBAND+(int)vc_below(&r,5); } else if(q==7){ w->what=3; w->val=OPUS_BANDWIDTH_NARROWBAND+(int)vc_below(&r,5); } else if(q==8){ w->what=4; w->val=vc_chance(&r,1,3)?OPUS_AUTO:VK_MODE_SILK+(int)vc_below(&r,3); } else { w->what=5; w->val=vc_below(&r,11); } }
+  float *in=(float*)malloc(sizeof(float)*n*c.ch), *yt=(float*)calloc(n*2+16,sizeof(float)), *yr=(float*)calloc(n*2+16,sizeof(float)); unsigned char *tt=(unsigned char*)calloc(nfr+1,1), *tr=(unsigned char*)calloc(nfr+1,1); int *lt=(int*)calloc(nfr+1,sizeof(int)), *lr=(int*)calloc(nfr+1,sizeof(int));
+  int sig=VC_PICK(&r,((const int[]){VS_SPEECHLIKE,VS_MULTITONE,VS_BANDNOISE,VS_WHITE,VS_VOICED})); vc_siggen g; vs_init(&g,sig,c.Fs,c.ch,(float)(0.15+0.35*vc_unit(&r)),vc_next(&r)); vs_fill(&g,in,(int)n);
+  if(c.ch==2){ vc_siggen g2; vs_init(&g2,VS_MULTITONE,c.Fs,1,0.25f,vc_next(&r)); float *m=(float*)malloc(sizeof(float)*n); vs_fill(&g2,m,(int)n); double lr2=vc_chance(&r,1,2)?1.0:0.3+0.5*vc_unit(&r); for(long i=0;i<n;i++) in[2*i+1]=(float)(lr2*(0.6f*in[2*i+1]+0.4f*m[i])); free(m); }
+  char desc[500]; int o=snprintf(desc,sizeof desc,"Fs=%d ch=%d app %d->%d frame=%d bitrate=%d vbr=%d cx=%d signal=%s switches:",c.Fs,c.ch,c.app0,c.app1,fs,c.bitrate,c.vbr,c.cx,vs_names[sig]); for(int j=0;j<c.nsw&&o<470;j++) o+=snprintf(desc+o,sizeof desc-o," @%d:%d=%d",c.sw[j].at,c.sw[j].what,c.sw[j].val);
+  int lct=0,lcr=0,lat=0,lar=0; int la=swrun_tree(&c,in,n,yt,tt,lt,&lct,&lat), lb=swrun_ref(&c,in,n,yr,tr,lr,&lcr,&lar);
+  if(la==-4||lb==-4){ if(la!=lb){ vc_viol("switch:set-application","OPUS_SET_APPLICATION before the first frame: tree %s, frozen reference %s (%s)",la==-4?"refused":"accepted",lb==-4?"refused":"accepted",desc); } else vc_count("switch_application_change_refused",1); goto out; }
+  if(la<0||lb<0){ vc_viol("roundtrip:failed","encode/decode failed (tree %d, reference %d) %s",la,lb,desc); goto out; }
+  /* (a) lookahead */
+  { int e0=c.Fs/400+(c.app0==OPUS_APPLICATION_RESTRICTED_LOWDELAY?0:c.Fs/250), e1=c.Fs/400+(c.app1==OPUS_APPLICATION_RESTRICTED_LOWDELAY?0:c.Fs/250); if(lct!=e0||lat!=e1||lat!=lar){ vc_viol("lookahead:value","OPUS_GET_LOOKAHEAD=%d after creation (documented %d), %d after OPUS_SET_APPLICATION (documented %d, frozen reference %d) (%s)",lct,e0,lat,e1,lar,desc); goto out; } vc_count("switch_lookaheads_checked",1); if(c.app0!=c.app1) vc_count("switch_application_changed_before_first_frame",1); }
+  vc_count("switch_roundtrips",1);
+  /* delay after an application change: cross-correlation estimate against the reported lookahead, relative to the frozen build */
+  if(c.app0!=c.app1&&(sig==VS_SPEECHLIKE||sig==VS_BANDNOISE||sig==VS_WHITE)){ int maxd=(int)(0.003*c.Fs); long skip=c.Fs/5; double dt=est_delay(in,yt,n,c.ch,0,lat,maxd,skip), dr=est_delay(in,yr,n,c.ch,0,lat,maxd,skip); if(fabs(dr)<=0.5+0.1*c.Fs/1000.0&&snr_db(in,yr,n,c.ch,0,lat,skip)>=10){ if(fabs(dt-dr)>C04_DELAY_VS_REF_SAMPLES+0.02*c.Fs/1000.0){ vc_viol("delay:mismatch","after OPUS_SET_APPLICATION the decoded signal is delayed by lookahead%+.3f samples (frozen reference %+.3f) (%s)",dt,dr,desc); goto out; } vc_count("switch_delays_checked",1); } }
+  /* (b) segmental level monitor */
+  { int same=1; for(int k=0;k<nfr;k++) if(tt[k]!=tr[k]||(lt[k]<=2)!=(lr[k]<=2)){ same=0; break; } if(!same){ vc_count("switch_streams_decisions_differ_from_frozen_build",1); goto sig_; }
+    int B=c.Fs/400; long nb=(n-lat-8)/B; long bad=0, checked=0; long firstbad=-1; int badch=0; double bt=0,br=0,bi=0; long skipb=(long)(0.2*c.Fs)/B;
+    for(int ci=0;ci<c.ch;ci++) for(long b=skipb;b<nb;b++){ double ei=0,et=0,er=0; for(long i=b*B;i<(b+1)*B;i++){ double x=in[i*c.ch+ci], a=yt[(i+lat)*c.ch+ci], q=yr[(i+lat)*c.ch+ci]; ei+=x*x; et+=a*a; er+=q*q; } if(ei<B*1e-4) continue; /* below -40 dBFS */
+        double dr=10*log10((er+1e-12)/ei); if(fabs(dr)>C04_SEG_REF_DB) continue;
+        /* the frame(s) this output block comes from (the output lags the input by the lookahead): well funded = enough bits per second and channel for the layer in use that block energies are preserved */
+        int k0=(int)((b*B+lat)/fs), k1=(int)(((b+1)*B-1+lat)/fs); if(k1>=nfr) k1=nfr-1; if(k0>0) k0--; /* overlap with the previous frame */ int funded=1; for(int k=k0;k<=k1;k++){ double rate=(double)(lt[k]<lr[k]?lt[k]:lr[k])*8.0*c.Fs/fs/((tt[k]&4)?2:1); double need=(tt[k]&0x80)?C04_SEG_RATE_MDCT:((tt[k]&0x60)==0x60?C04_SEG_RATE_HYBRID:C04_SEG_RATE_SILK); if(rate<need) funded=0; }
+        if(!funded){ vc_count("switch_blocks_in_low_rate_frames_skipped",1); continue; } checked++; double dtr=10*log10((et+1e-12)/(er+1e-12)), dti=10*log10((et+1e-12)/ei); double lim=funded?C04_SEG_DB:C04_SEG_GROSS_DB; vc_max(funded?"switch_block_level_tree_vs_frozen_db_funded":"switch_block_level_tree_vs_frozen_db_starved",fabs(dtr)<fabs(dti)?fabs(dtr):fabs(dti)); if(funded) vc_count("switch_blocks_checked_well_funded",1);
+        if(vc_verbose>1) fprintf(stderr,"ch %d block %ld (%.1f ms) frames %d-%d toc %02x len %d/%d funded %d: in %.1f dBFS tree %+.1f ref %+.1f\n",ci,b,b*2.5,k0,k1,tt[k1],lt[k1],lr[k1],funded,10*log10(ei/B),dti,dr);
+        if(fabs(dtr)>lim&&fabs(dti)>lim){ bad++; if(firstbad<0){ firstbad=b; badch=ci; bt=et; br=er; bi=ei; } } }
+    vc_count("switch_blocks_checked",checked);
+    if(bad){ int fr=(int)(firstbad*B/fs); vc_viol("switch:block-level","%ld of %ld audible 2.5 ms blocks of well-funded frames come back more than %.0f dB away from both the input and the frozen build's output, which is within %.0f dB of the input there; first: channel %d, block at %.1f ms (frame %d, TOC %02x after %02x): input %.1f dBFS, tree %+.1f dB, frozen build %+.1f dB (%s)",bad,checked,C04_SEG_DB,C04_SEG_REF_DB,badch,firstbad*2.5,fr,tt[fr],fr>0?tt[fr-1]:0,10*log10(bi/B+1e-12),10*log10((bt+1e-12)/bi),10*log10((br+1e-12)/bi),desc); goto out; }
+    vc_count("switch_streams_segmentally_checked",1); }
+sig_:
+  { int trans=0, chsw=0, modesw=0; for(int k=1;k<nfr;k++){ if((tt[k]>>3)!=(tt[k-1]>>3)) trans++; if((tt[k]&4)!=(tt[k-1]&4)) chsw++; int m0=(tt[k-1]&0x80)?2:((tt[k-1]&0x60)==0x60?1:0), m1=(tt[k]&0x80)?2:((tt[k]&0x60)==0x60?1:0); if(m0!=m1) modesw++; } vc_count("switch_config_transitions",trans); vc_count("switch_channel_transitions",chsw); vc_count("switch_mode_transitions",modesw); vc_sig3((uint64_t)c.fidx|((uint64_t)(c.Fs/8000)<<4)|((uint64_t)c.ch<<8),(uint64_t)(trans<7?trans:7)|((uint64_t)(chsw<3?chsw:3)<<3)|((uint64_t)(modesw<3?modesw:3)<<5),(uint64_t)(c.app0&7)|((uint64_t)(c.app1&7)<<3)); }
+  if(vc_want_sample()) vc_sample("{\"mode\":\"switch\",\"config\":\"%s\",\"lookahead\":%d}",desc,lat);
+out:
+  free(in); free(yt); free(yr); free(tt); free(tr); free(lt); free(lr);
+}
+
 int main(int argc,char **argv){
-  static const vc_mode_t modes[]={{"rt",mode_rt},{"ms",mode_ms},{0,0}};
+  static const vc_mode_t modes[]={{"rt",mode_rt},{"ms",mode_ms},{"switch",mode_switch},{0,0}};
   return vc_main(argc,argv,"C04",modes);
 }
